@@ -16,7 +16,7 @@ import (
 // bytes, or nil when the mutation does not apply to this transaction.
 var Mutations = []string{
 	"payload", "feePrice", "feeGas", "feeCurrency", "memo", "type", "substKey", "flipSig", "dropSigner",
-	"addSigner", "swapSigners", "changeAlg", "resignOtherKey", "unsigned",
+	"addSigner", "swapSigners", "changeAlg", "resignOtherKey", "unsigned", "dupCoSigner",
 }
 
 func reserialize(st action.SignedTx) []byte {
@@ -98,6 +98,12 @@ func (g *Genesis) Mutate(bt *Built, m string, pos int, other *Account) []byte {
 		st.Signatures[pos] = action.Signature{Signer: other.Pub, Signed: other.Sign(st.RawTx.RawBytes())}
 	case "unsigned":
 		st.Signatures = []action.Signature{}
+	case "dupCoSigner":
+		// the slot carries a copy of a co-signer's key and signature
+		if len(st.Signatures) < 2 {
+			return nil
+		}
+		st.Signatures[pos] = st.Signatures[1-pos]
 	default:
 		panic("unknown mutation " + m)
 	}
@@ -110,7 +116,7 @@ func (g *Genesis) Mutate(bt *Built, m string, pos int, other *Account) []byte {
 
 // Encodings of the same signed content (property C05): different bytes that parse to the
 // same transaction.
-var Encodings = []string{"identical", "whitespace", "keyOrder", "extraField", "duplicateKey", "keyCase", "escapes"}
+var Encodings = []string{"identical", "whitespace", "keyOrder", "extraField", "duplicateKey", "keyCase", "extraSignature", "junkSignatureField"}
 
 func Reencode(b []byte, enc string) []byte {
 	switch enc {
@@ -162,12 +168,24 @@ func Reencode(b []byte, enc string) []byte {
 			return nil
 		}
 		return []byte(strings.Replace(s, `"memo"`, `"MEMO"`, 1))
-	case "escapes":
-		s := string(b)
-		if !strings.Contains(s, `"memo":"m`) {
+	case "extraSignature":
+		// altered unsigned part: one more entry in the signature list, canonical encoding
+		st := decodeSigned(b)
+		if len(st.Signatures) == 0 {
 			return nil
 		}
-		return []byte(strings.Replace(s, `"memo":"m`, `"memo":"m`, 1))
+		st.Signatures = append(st.Signatures, st.Signatures[0])
+		return reserialize(st)
+	case "junkSignatureField":
+		// altered unsigned part: the signature list is unchanged in content but one signature
+		// carries trailing bytes
+		st := decodeSigned(b)
+		if len(st.Signatures) == 0 {
+			return nil
+		}
+		last := len(st.Signatures) - 1
+		st.Signatures[last].Signed = append(append([]byte{}, st.Signatures[last].Signed...), 0)
+		return reserialize(st)
 	}
 	panic("unknown encoding " + enc)
 }
